@@ -63,24 +63,12 @@ theorem C09_invalid_refused (U : UnicodeOps) (forItem : Bool) (invalid dup : Cod
     createNamed (fun n => if forItem then normalizeItemName U n invalid else normalizeName U n invalid) present a dup = .error invalid := by
   cases forItem <;> simp [createNamed, normalizeName, normalizeItemName, ha]
 
-/-- C09, table keys — FULL statement: after `set key v`, a look-up under a valid `key'` finds `v` iff `NFC key' = NFC key`
-    (canonical equivalence only — `fold` plays no role, so case is significant), any other key sees what it saw before, and the
-    entry is enumerated under the spelling just used. -/
-def C09_table_keys_full : Prop :=
-  ∀ (U : UnicodeOps) (α : Type) (invalid noSuch : Code) (es es' : Entries α) (key key' : Str) (v : α),
-    hasDisallowed key' = false → es.set (fun n => normalizeTableIndex U n invalid) key v = .ok es' →
-    hasDisallowed key = false ∧
-    (U.nfc key' = U.nfc key → es'.get (fun n => normalizeTableIndex U n noSuch) key' noSuch = .ok v) ∧
-    (U.nfc key' ≠ U.nfc key →
-      es'.get (fun n => normalizeTableIndex U n noSuch) key' noSuch = es.get (fun n => normalizeTableIndex U n noSuch) key' noSuch) ∧
-    es'.find (U.nfc key) = some (U.nfc key, key, v) ∧ key ∈ es'.keys
-
-/-- C09, table keys, proved for a key whose NFC form is not yet in the table (the entry is appended): the full conclusion.
-    MISSING for the full statement: the branch of `cif_map_set_item` that overwrites an existing entry in place (same
-    conclusion; the list-update lemma is not proved).  That branch is exercised by the `norm map` correspondence family
-    (set under one spelling, set again under a canonically equivalent one, enumerate). -/
-theorem C09_table_keys_partial (U : UnicodeOps) {α : Type} (invalid noSuch : Code) (es es' : Entries α) (key key' : Str) (v : α)
-    (hk' : hasDisallowed key' = false) (hfresh : es.find (U.nfc key) = none)
+/-- **C09, table keys.**  After `set key v` (new entry appended, or existing entry overwritten in place), a look-up under a valid
+    `key'` finds `v` iff `NFC key' = NFC key` (canonical equivalence only — `fold` plays no role, so case is significant), any
+    other key sees what it saw before, and the entry is enumerated under the spelling just used (`keys` contains `key`; the
+    entry for `NFC key` carries `key` as its original spelling). -/
+theorem C09_table_keys (U : UnicodeOps) {α : Type} (invalid noSuch : Code) (es es' : Entries α) (key key' : Str) (v : α)
+    (hk' : hasDisallowed key' = false)
     (hset : es.set (fun n => normalizeTableIndex U n invalid) key v = .ok es') :
     hasDisallowed key = false ∧
     (U.nfc key' = U.nfc key → es'.get (fun n => normalizeTableIndex U n noSuch) key' noSuch = .ok v) ∧
@@ -90,26 +78,42 @@ theorem C09_table_keys_partial (U : UnicodeOps) {α : Type} (invalid noSuch : Co
   by_cases hk : hasDisallowed key = true
   · simp [Entries.set, normalizeTableIndex, hk] at hset
   · have hk0 : hasDisallowed key = false := by cases h : hasDisallowed key <;> simp_all
-    have hns : (es.find (U.nfc key)).isSome = false := by rw [hfresh]; rfl
     simp only [Entries.set, normalizeTableIndex, hk0] at hset
-    simp [hns] at hset
-    subst hset
-    have hf : Entries.find (es ++ [(U.nfc key, key, v)]) (U.nfc key) = some (U.nfc key, key, v) := by
-      simp only [Entries.find] at hfresh ⊢
-      rw [List.find?_append, hfresh]; simp
-    refine ⟨hk0, ?_, ?_, hf, ?_⟩
-    · intro e; simp [Entries.get, normalizeTableIndex, hk', e, hf]
-    · intro hne
-      have : Entries.find (es ++ [(U.nfc key, key, v)]) (U.nfc key') = Entries.find es (U.nfc key') := by
-        simp only [Entries.find]
-        rw [List.find?_append]
-        cases h : List.find? (fun e => e.1 == U.nfc key') es with
-        | some e => rfl
-        | none =>
-          have : (U.nfc key == U.nfc key') = false := by simpa using fun e => hne e.symm
-          simp [List.find?, this]
-      simp [Entries.get, normalizeTableIndex, hk', this]
-    · simp [Entries.keys]
+    by_cases hex : (es.find (U.nfc key)).isSome = true
+    · -- overwrite in place
+      simp only [Bool.false_eq_true, if_false] at hset
+      rw [if_pos hex] at hset
+      injection hset with hset
+      subst hset
+      have hf := find_overwrite (U.nfc key) key v es hex
+      refine ⟨hk0, ?_, ?_, hf, ?_⟩
+      · intro e
+        simp only [Entries.get, normalizeTableIndex, hk', e, Bool.false_eq_true, if_false, hf]
+      · intro hne
+        have := find_other (U.nfc key) key v (U.nfc key') hne es
+        simp only [Entries.get, normalizeTableIndex, hk', Bool.false_eq_true, if_false, this]
+      · have hm := List.mem_of_find?_eq_some (show List.find? _ _ = some _ from hf)
+        exact List.mem_map.mpr ⟨_, hm, rfl⟩
+    · have hns : (es.find (U.nfc key)).isSome = false := by simpa using hex
+      have hfresh : es.find (U.nfc key) = none := by cases h : es.find (U.nfc key) <;> simp_all
+      simp [hns] at hset
+      subst hset
+      have hf : Entries.find (es ++ [(U.nfc key, key, v)]) (U.nfc key) = some (U.nfc key, key, v) := by
+        simp only [Entries.find] at hfresh ⊢
+        rw [List.find?_append, hfresh]; simp
+      refine ⟨hk0, ?_, ?_, hf, ?_⟩
+      · intro e; simp [Entries.get, normalizeTableIndex, hk', e, hf]
+      · intro hne
+        have : Entries.find (es ++ [(U.nfc key, key, v)]) (U.nfc key') = Entries.find es (U.nfc key') := by
+          simp only [Entries.find]
+          rw [List.find?_append]
+          cases h : List.find? (fun e => e.1 == U.nfc key') es with
+          | some e => rfl
+          | none =>
+            have : (U.nfc key == U.nfc key') = false := by simpa using fun e => hne e.symm
+            simp [List.find?, this]
+        simp [Entries.get, normalizeTableIndex, hk', this]
+      · simp [Entries.keys]
 
 /-- table keys are matched without case folding: two keys match iff their NFC forms coincide, whatever `fold` does -/
 theorem C09_table_keys_case_significant (U : UnicodeOps) (code : Code) (k k' : Str)
@@ -117,42 +121,20 @@ theorem C09_table_keys_case_significant (U : UnicodeOps) (code : Code) (k k' : S
     (normalizeTableIndex U (some k) code = normalizeTableIndex U (some k') code) ↔ U.nfc k = U.nfc k' := by
   simp [normalizeTableIndex, h, h']
 
-/-- C09 validity — FULL statement: for every string of UTF-16 code units, `cif_is_valid_name` accepts exactly the names / codes the
-    CIF rules allow (code-point level: surrogate pairs as one character, unpaired surrogates invalid, supplementary
-    non-characters invalid, limits of 2048 / 2043 code points). -/
-def C09_validity_full : Prop :=
-  ∀ (forItem : Bool) (s : Str), (∀ c ∈ s, c < 0x10000) → (isValidName forItem s = true ↔ validName forItem s)
-
-/-- C09 validity, proved for every string WITHOUT surrogate code units (all BMP characters, every length): first character and
-    minimum length, every class of disallowed BMP character, the 2048 / 2043 limits.  MISSING for the full statement: the
-    surrogate branches of `hasDisallowed` / `countChar32` against `Spec.decode` (pairs, unpaired units, U+xFFFE/U+xFFFF) — these
-    are covered by the `valid` correspondence family (exhaustive over the pair classes at every position and at the length
-    limits), not by this theorem. -/
-theorem C09_validity_partial (forItem : Bool) (s : List Nat) (hs : noSurrogates s) :
+/-- **C09 validity.**  For EVERY string of UTF-16 code units (`< 0x10000`, true of every `UChar`), for data names and for
+    block / frame codes: `cif_is_valid_name` accepts exactly what the CIF rules allow, stated on code points
+    (`Spec.validName`: `_` + at least one more character resp. non-empty; every character a CIF character other than
+    whitespace — no C0 controls, SP, U+007F–U+009F, U+FDD0–U+FDEF, U+xxFFFE/U+xxFFFF in any plane; a surrogate pair is one
+    character, an unpaired surrogate is none; at most 2048 resp. 2043 characters).  The mask tests of
+    `cif_has_disallowed_chars` on surrogate pairs are linked to code-point arithmetic by kernel-evaluated tables
+    (`Lemmas.Names.pair_nonchar`). -/
+theorem C09_validity (forItem : Bool) (s : List Nat) (hs : ∀ c ∈ s, c < 0x10000) :
     isValidName forItem s = true ↔ validName forItem s := by
+  obtain ⟨hcnt, hchars⟩ := scan_spec s hs
+  have hstart := start_spec forItem s
   unfold validName isValidName
-  rw [decode_bmp s hs, count_bmp s hs, disallowed_bmp s hs]
-  have hchars : (hasWhitespace s = false ∧ s.any bmpDisallowed = false) ↔ ∀ x ∈ s.map some, ∃ cp, x = some cp ∧ nameChar cp := by
-    constructor
-    · rintro ⟨h1, h2⟩ x hx
-      obtain ⟨c, hc, rfl⟩ := List.mem_map.mp hx
-      refine ⟨c, rfl, (unit_ok c (hs c hc)).1 ⟨?_, ?_⟩⟩
-      · have := List.any_eq_false.mp h1 c hc; simpa using this
-      · have := List.any_eq_false.mp h2 c hc; simpa using this
-    · intro h
-      constructor
-      · apply List.any_eq_false.mpr; intro c hc
-        obtain ⟨cp, e, hn⟩ := h (some c) (List.mem_map.mpr ⟨c, hc, rfl⟩)
-        cases e; have := ((unit_ok c (hs c hc)).2 hn).1; simpa using this
-      · apply List.any_eq_false.mpr; intro c hc
-        obtain ⟨cp, e, hn⟩ := h (some c) (List.mem_map.mpr ⟨c, hc, rfl⟩)
-        cases e; have := ((unit_ok c (hs c hc)).2 hn).2; simpa using this
-  have hstart : startOk forItem s = true ↔
-      (if forItem then (s.map some).head? = some (some 95) ∧ 2 ≤ (s.map some).length else 1 ≤ (s.map some).length) := by
-    cases forItem
-    · cases s <;> simp [startOk]
-    · rcases s with _ | ⟨a, _ | ⟨b, r⟩⟩ <;> simp [startOk]
-  have hlen : s.length ≤ lineLength - (if forItem then 0 else 5) ↔ (s.map some).length ≤ (if forItem then 2048 else 2043) := by
+  rw [hcnt]
+  have hlen : (decode s).length ≤ lineLength - (if forItem then 0 else 5) ↔ (decode s).length ≤ (if forItem then 2048 else 2043) := by
     cases forItem <;> simp [lineLength]
   simp only [Bool.and_eq_true, decide_eq_true_eq, Bool.not_eq_true']
   constructor
@@ -167,6 +149,7 @@ def toyU : UnicodeOps := { nfd := id, nfc := id, fold := fun s => s.map fun c =>
 example : Laws toyU := ⟨fun _ => rfl, fun _ => rfl, fun x => by simp [toyU, List.map_map]; intro a _ ; split <;> simp_all⟩
 example : cifNormalize toyU [95, 65] = cifNormalize toyU [95, 97] := by decide
 example : isValidName true [95, 65] = true ∧ isValidName true [95, 0x85] = false ∧ isValidName false [] = false := by decide
-example : noSurrogates [95, 65, 0x3b1] := by intro c hc; simp at hc; rcases hc with rfl | rfl | rfl <;> simp
+example : isValidName true [95, 0xd83f, 0xdffe] = false ∧ isValidName true [95, 0xd83f, 0xdffd] = true ∧ isValidName true [95, 0xd800] = false := by decide
+example : validName true [95, 0xd83f, 0xdffd] := (C09_validity true _ (by decide)).1 (by decide)
 
 end CifModel
